@@ -345,6 +345,8 @@ func (be *batchedEntries) record(wb kv.IWriteBatch,
 	return maxIndex
 }
 
+var errNoSuchEntryBatch = errors.New("no such entry")
+
 func (be *batchedEntries) getBatchFromDB(shardID uint64,
 	replicaID uint64, batchID uint64) (pb.EntryBatch, bool) {
 	var e pb.EntryBatch
@@ -353,11 +355,14 @@ func (be *batchedEntries) getBatchFromDB(shardID uint64,
 	k.SetEntryBatchKey(shardID, replicaID, batchID)
 	if err := be.kvs.GetValue(k.Key(), func(data []byte) error {
 		if len(data) == 0 {
-			return errors.New("no such entry")
+			return errNoSuchEntryBatch
 		}
 		pb.MustUnmarshal(&e, data)
 		return nil
 	}); err != nil {
+		if !errors.Is(err, errNoSuchEntryBatch) {
+			plog.Panicf("failed to read entry batch %d, %v", batchID, err)
+		}
 		return e, false
 	}
 	if len(e.Entries) > 1 {
